@@ -189,9 +189,9 @@ func (sc *Scenario) caseCoqR(t *tables, obs *Obs) string {
 		return fmt.Sprintf("(%s, %s, %s, %s)", hx.N(e.Test), hx.N(e.Operand), hx.List(e.Args, hx.N), e.Coq)
 	})
 	o := obs.R
-	return fmt.Sprintf("{| rc_lc := %s; rc_max := %d%%nat;\n     rc_node := {| n_router := %s;\n       n_exits := %s |};\n     rc_flow_nodes := %s; rc_site := %s; rc_is_timeout := %s;\n"+
+	return fmt.Sprintf("{| rc_lc := %s; rc_max := %d%%nat; rc_max_tpl := %d%%nat;\n     rc_node := {| n_router := %s;\n       n_exits := %s |};\n     rc_flow_nodes := %s; rc_site := %s; rc_is_timeout := %s;\n"+
 		"     rc_draw := %s; rc_timeouts := %s; rc_prev := %s;\n     rc_evals := %s;\n     rc_texts := %s;\n     rc_registered := %s;\n     rc_tests := %s;\n     %s |}",
-		sc.lcCoq(), sc.MaxResult, router, exits, flowNodes, site, hx.Bool(sc.needsResume() && sc.Resume == "timeout"),
+		sc.lcCoq(), sc.MaxResult, max(sc.maxTemplate(), 0), router, exits, flowNodes, site, hx.Bool(sc.needsResume() && sc.Resume == "timeout"),
 		draw, hx.List(obs.Timeouts, coqStr), resultCoq(sc.prevResult(obs)), evals, texts, hx.List(regs, hx.N), tests, observedCoq(&o, x))
 }
 
@@ -212,9 +212,9 @@ func (sc *Scenario) caseCoqP(obs *Obs) string {
 	o := *obs.P
 	// the events of the pre node's step are those of its actions, not of a router
 	o.Events = nil
-	return fmt.Sprintf("{| rc_lc := %s; rc_max := %d%%nat;\n     rc_node := {| n_router := None; n_exits := [%s] |};\n     rc_flow_nodes := %s; rc_site := AtVisit; rc_is_timeout := false;\n"+
+	return fmt.Sprintf("{| rc_lc := %s; rc_max := %d%%nat; rc_max_tpl := %d%%nat;\n     rc_node := {| n_router := None; n_exits := [%s] |};\n     rc_flow_nodes := %s; rc_site := AtVisit; rc_is_timeout := false;\n"+
 		"     rc_draw := {| d_mant := 0%%N; d_scale := 0%%N |}; rc_timeouts := []; rc_prev := None;\n     rc_evals := []; rc_texts := []; rc_registered := []; rc_tests := [];\n     %s |}",
-		sc.lcCoq(), sc.MaxResult, strings.Join(exits, "; "), flowNodes, observedCoq(&o, x))
+		sc.lcCoq(), sc.MaxResult, max(sc.maxTemplate(), 0), strings.Join(exits, "; "), flowNodes, observedCoq(&o, x))
 }
 
 func snakify(s string) string {
